@@ -48,6 +48,33 @@ def run_shard(mod, mon: Monitor, tier: str, seed: int, shard: int, nshards: int)
         mon.error("harness", e)
 
 
+def suite_under_monitor(pid: str, mon: Monitor) -> None:
+    """Auxiliary workload (thorough tier): the repository's own tests with this property's monitors attached.
+    Test outcomes are ignored, only monitor verdicts are harvested; a run that cannot be harvested is a note, not a verdict."""
+    repo = Path(os.environ.get("VERIF_REPO", "/repo"))
+    if not (repo / "tests").is_dir():
+        mon.notes["suite_under_monitor"] = "no tests directory beside the tree under check"
+        return
+    WORK_DIR.mkdir(parents=True, exist_ok=True)
+    out = WORK_DIR / f"suite-{pid}-{os.getpid()}.json"
+    env = dict(os.environ, VF_SUITE_PROPS=pid, VF_SUITE_OUT=str(out))
+    try:
+        p = subprocess.run([sys.executable, "-m", "pytest", "-p", "vf.suite_plugin", "-q", "-p", "no:cacheprovider", "--timeout=900", "tests"], cwd=str(repo), env=env, capture_output=True, text=True, timeout=1800)
+        d = json.loads(out.read_text())[pid]
+        n0 = sum(mon.evals.values())
+        # keep floors of the main workload: suite observations only add
+        d["floors"] = {}
+        mon.absorb(d)
+        mon.notes["suite_under_monitor"] = {"evaluations": sum(mon.evals.values()) - n0, "pytest": (p.stdout.strip().splitlines() or ["?"])[-1][:120]}
+    except Exception as e:  # noqa: BLE001
+        mon.notes["suite_under_monitor"] = f"not harvested: {type(e).__name__}: {e}"[:300]
+    finally:
+        try:
+            out.unlink()
+        except OSError:
+            pass
+
+
 def main(argv=None) -> int:
     ap = argparse.ArgumentParser()
     ap.add_argument("pid")
@@ -133,6 +160,8 @@ def main(argv=None) -> int:
             shutil.rmtree(work, ignore_errors=True)
         mon.notes["shards"] = nshards
 
+    if a.tier == "thorough" and getattr(mod, "SUITE_UNDER_MONITOR", False):
+        suite_under_monitor(pid, mon)
     if hasattr(mod, "post_merge"):
         mod.post_merge(mon, a.tier)
     return mon.finish(mod.RULE, list(mod.ASSUMPTIONS), level=level)
